@@ -8,7 +8,7 @@ for d in "$@"; do
   if git -C $wt apply --3way $d/patch.diff > /dev/null 2>&1 || git -C $wt apply $d/patch.diff > /dev/null 2>&1; then
     git -C $wt reset -q
     line="$name:"
-    for i in $(seq -w 1 20); do
+    for i in ${CHECKS:-$(seq -w 1 20)}; do
       VERIF_REPO=$wt VERIF_RIDEALONG=0 VERIF_NO_EVIDENCE=1 VERIF_JOBS=${VERIF_JOBS:-4} ./vcheck C$i --tier quick > /tmp/benignregress_${name}_C$i.log 2>&1; code=$?
       if [ $code -eq 1 ]; then line="$line C$i"; elif [ $code -eq 2 ]; then line="$line (C$i:inconclusive)"; fi
     done
